@@ -42,8 +42,9 @@ def _shapes(tier):
         "outline": ([F([O(1, [(2, []), (0, [])]), S(1)])], Z),      # second Examples table is header-only
         "stepless": ([F([S(1), S(0), S(1), R([S(0)]), R([S(1)])])], {"out_dom": {"*": [0, 1]}}),      # elements without children
         "2feat": ([F([S(2)]), F([S(1)])], Z),
-        "wip": ([F([S(2, tags=["wip"]), S(1)])], Z),
-        "wip-inherited": ([F([S(1), R([S(2)], tags=["wip"])])], Z),      # @wip on the rule only
+        # (in @wip scenarios only behave's own pending-step signal is forgiven: other exception classes are symbolic there)
+        "wip": ([F([S(2, tags=["wip"]), S(1)])], {"exc_kinds": ["RuntimeError", "NotImplementedError", "KeyError"]}),
+        "wip-inherited": ([F([S(1), R([S(2)], tags=["wip"])])], {"exc_kinds": ["NotImplementedError", "StopIteration"]}),      # @wip on the rule only
     }
     if tier == "thorough":
         sh.update({
